@@ -1,25 +1,25 @@
 def extend(add, NA, SIMNOTE):
     add('C14', 'fault_enumeration',
-        'Seeded histories of write_env / crash at byte k / short writes with EIO or ENOSPC / failing opens / direct damage / restart / read_env judged against a reference model of the per-task files, '
+        'Seeded histories of write_env / crash at byte k / short writes with EIO or ENOSPC / failing opens / direct damage / restart / read_env judged against a reference model of the per-task files (what is on the disk, and what the last completed write said), files overwritten with junk that is not a pickled environment, '
         'plus an enumeration of EVERY proper prefix (every crash point of the sequential writer) of each sampled environment file, read back through Env.from_file and read_env. '
         'The truncation dimension is swept completely for the sampled files; payloads and fault sequences are sampled.',
-        'Trusted: the crash model (a killed sequential writer leaves a byte prefix, an empty or a NUL-filled file), the fault seam around open() in vsim/faultfs.py, pickle. Bit flips that still unpickle are out of scope (no checksum in the format, none claimed).',
+        'Trusted: the crash model (a killed sequential writer leaves a byte prefix, an empty or a NUL-filled file), the fault seam around open() in vsim/faultfs.py, pickle. Flipped bytes inside a valid pickle are not injected: they can unpickle to a different entry (no checksum in the format, none claimed) and a corrupted numpy pickle was seen to crash the interpreter, which no reader can turn into "not done".',
         'deterministic simulation of crash points and I/O faults on the environment files + exhaustive truncation enumeration', 'DESIGN.md 4 C14', 'vsim-faultfs')
     add('C11', 'fault_enumeration',
         'Crash points of the listing writer are enumerated: quick = every byte offset inside the end-flag lines, a sample of the other lines the scanner interprets and 300 random offsets per listing; '
-        'thorough = EVERY byte offset of every example listing and of synthetic 3-edition listings. Each prefix is opened and every edition found is parsed and compared (numpy-aware deep equality) with the same edition of the complete listing parsed in a fresh process; '
-        'seeded histories of 8-30 (listing, offset) pairs over the whole corpus in one reader process cover "whatever was parsed earlier in the same process".',
+        'thorough = EVERY byte offset of every example listing, of synthetic 3-edition listings and of hand-made listings with NU, (Z,A) and vov spectra. Each prefix is opened and every edition found is parsed and compared (numpy-aware deep equality) with the same edition of the complete listing parsed in a fresh process; '
+        'seeded histories of 8-30 (listing, offset) pairs over the whole corpus in one reader process cover "whatever was parsed earlier in the same process"; in a third of the histories every listing is parsed in a reader thread of its own.',
         'Trusted: the crash model (byte prefix), the deep comparison in vsim/deepeq.py, the narrow relaxations listed in the evidence assumptions (run_data describes the whole file; a time printed after the end flag may be missing but not different). The corpus is the shipped examples plus synthetic multi-edition listings; other listing layouts are not covered.',
         'deterministic simulation of writer crash points (byte-prefix enumeration) with fresh-process reference parses', 'DESIGN.md 4 C11', 'vsim-faultfs')
     add('C19', 'exploration',
-        'Seeded simulated runs of jobs of RunTasks (from_cli, from_clis, RunTaskFactory.make) on the real queue backend with the subprocess seam bound to a scripted process table '
-        '(exit statuses including signals, text on both streams written to the file descriptors, durations, start-up failures, valid and invalid task names), 5% of the runs on the real subprocess.call with /bin/sh; '
+        'Seeded simulated runs of jobs of RunTasks (from_cli, from_clis, RunTaskFactory.make), CheckoutTasks and BuildTasks on the real queue backend with the subprocess seam bound to a scripted process table '
+        '(exit statuses including signals, text on both streams written to the file descriptors, durations, start-up failures, valid and invalid task names, output and log roots that do not exist yet, stale capture files of an earlier run), a start-up family that stalls one worker inside the directory-creation code while the others run through it, 5% of the runs on the real subprocess.call with /bin/sh; '
         'statuses, commands actually started, return codes, captured files and per-task directories are compared with a reference model under many interleavings of 1-4 workers.',
         SIMNOTE + ' The process stub writes with os.write on the descriptors it is given, like a child process.',
         'deterministic simulation: scripted process table behind the subprocess seam + thread simulator + reference model', 'DESIGN.md 4 C19', 'vsim-threads')
     add('C04', 'exploration',
         'Seeded histories of 2-5 runs of one job over one scratch output tree: every run is a simulated process (fresh tasks, graphs, Env; only the per-task environment files survive) scheduled by the real queue backend under a seeded policy, '
         'through RunCommand.execute on a job file or read_env/schedule/write_env; between runs persisted environments are lost, tasks flip between success and failure, tasks are added, worker counts change, and a run may crash while writing the environments. '
-        'After every run: no DONE task is older than a DONE dependency (ground truth from execution ids and recorded clocks) or sits on a FAILED/SKIPPED hard dependency; up-to-date DONE tasks are neither executed nor modified.',
+        'After every run: no DONE task is older than a DONE dependency (ground truth from execution ids and recorded clocks) or sits on a FAILED/SKIPPED hard dependency; up-to-date DONE tasks are neither executed nor modified; what a completed run persisted is what the next run reads.',
         SIMNOTE + ' The clock is strictly increasing across the runs of a history (no backward jumps).',
         'deterministic simulation of run histories: thread simulator + restarts with durable state only + continuing simulated clock', 'DESIGN.md 4 C04', 'vsim-threads')
